@@ -147,7 +147,7 @@ func c20Source(ns []qnode) *hist.Source {
 
 func init() {
 	Registry["C20"] = func(c *Ctx) {
-		c.R.Rule = "every workspace of a family (4 targets in two packages, every subset of the 6 possible lower->higher dependency edges = all DAG shapes incl. diamonds, plus variants in which one edge goes through an alias; one target is a test target) is materialised on disk and queried with the REAL binary: grog deps / deps -t / rdeps / rdeps -t for every node, --target-type=test|no_test, grog owners for every input file (incl. a file shared by two targets, glob-resolved files, a same-named file in another package and an unowned file), grog list for 8 pattern forms. Printed label sets must equal reference reachability sets, each label printed once, deps* and rdeps* must be mutual inverses. Second part: every single-file edit of the C01 model workspace followed by a build started in each directory of the workspace in turn: executed targets ⊆ owners(f) ∪ rdeps*(owners(f)) as printed by the binary itself. Non-trivial = a query whose expected answer is non-empty."
+		c.R.Rule = "every workspace of a family (4 targets in two packages, every subset of the 6 possible lower->higher dependency edges = all DAG shapes incl. diamonds, plus variants in which one edge goes through an alias; one target is a test target) is materialised on disk and queried with the REAL binary: grog deps / deps -t / rdeps / rdeps -t for every node, --target-type=test|no_test, grog owners for every input file (incl. a file shared by two targets, glob-resolved files, a same-named file in another package and an unowned file), grog list for 8 pattern forms. Printed label sets must equal reference reachability sets, each label printed once, deps* and rdeps* must be mutual inverses. Second part: every single-file edit of the C01 model workspace followed by a build started in each directory of the workspace in turn: executed targets ⊆ owners(f) ∪ rdeps*(owners(f)) as printed by the binary itself. Non-trivial = a query whose expected answer is non-empty. One target name exists in two packages (a target may depend on both). A workspace in which an unrelated target has two outputs of very different size: editing another target's input must not re-execute it (3 rounds)."
 		c.R.Assume("edit part: regular input files only; a file that is an input only through a symbolic link is not an input file by its own path and is left out (symlinked inputs are covered by C01)", "stdout lines starting with // are the answer of a query command", "with --target-type other than all only target labels are compared (alias nodes are not typed)")
 		grog, err := vc.BuildGrog("grog", nil)
 		if err != nil {
